@@ -39,6 +39,14 @@ def shards(tier, seed):
 
 
 def gen_key(rng, used, env=False):
+    if not env and rng.random() < 0.08:
+        # names that happen to be the name of something the XSpec class itself has (a key is just a key)
+        import execnet
+
+        pool = [n for n in dir(execnet.XSpec) if not n.startswith("_") and n != "env"] + ["kind", "type", "name", "items", "keys", "value", "spec", "copy"]
+        k = rng.choice(pool)
+        if k not in used:
+            return k
     for _ in range(100):
         n = rng.choice((1, 1, 2, 3, 5, 9))
         k = "".join(rng.choice(ALPHA) for _ in range(n))
@@ -232,6 +240,19 @@ def run_alloc(spec):
             import atexit
 
             atexit.unregister(g._cleanup_atexit)
+            # some runs start with members that were given ids of the automatic form explicitly (gw0, gw2, ...): an automatic
+            # allocation that runs into one is refused (ValueError) or steps over it - it never hands an id out twice
+            taken = set()
+            if rng.random() < 0.5:
+
+                class Taken:
+                    def __init__(self, id):
+                        self.id = id
+
+                for j in rng.choice(((0,), (0, 1), (1,), (2,), (1, 3, 4))):
+                    g._register(Taken(f"gw{j}"))
+                    taken.add(f"gw{j}")
+                res.count("alloc_runs_with_explicit_gwN_members")
             got: list[list[str]] = [[] for _ in range(T)]
             start = threading.Barrier(T)
             errs = []
@@ -241,7 +262,12 @@ def run_alloc(spec):
                     start.wait()
                     for _ in range(per):
                         s = execnet.XSpec("popen")
-                        g.allocate_id(s)
+                        try:
+                            g.allocate_id(s)
+                        except ValueError:
+                            if not taken:
+                                raise
+                            continue
                         got[ix].append(s.id)
                 except BaseException as e:  # noqa
                     errs.append(repr(e))
@@ -270,7 +296,9 @@ def run_alloc(spec):
                 res.violation("allocate-id-raised", errs[0])
             if any(t.is_alive() for t in ths):
                 res.violation("allocate-id-hung", f"{mode} {arg}")
-            if len(set(allids)) != len(allids) or len(allids) != T * per:
+            if taken & set(allids):
+                res.violation("auto-id-equals-explicit-id", f"{mode} {arg}: {sorted(taken & set(allids))} handed out although members have these ids")
+            if len(set(allids)) != len(allids) or (len(allids) != T * per and not taken):
                 dup = sorted({i for i in allids if allids.count(i) > 1})
                 res.violation("duplicate-auto-id", f"{mode} {arg}: duplicates {dup[:5]} among {len(allids)} ids")
             if None in allids:
